@@ -1,11 +1,13 @@
 /- Operation table of the model driver: one import and one `++` entry per ops module. -/
 import Driver.Ops.C07
+import Driver.Ops.C13
 import Driver.Ops.C17
 namespace ZVD
 
 def allOps : OpTable :=
   [("ping", fun _ => pure "ok pong")]
   ++ opsC07
+  ++ opsC13
   ++ opsC17
 
 def dispatch (op : String) (a : Args) : Except String String :=
